@@ -217,7 +217,7 @@ def work(exes, family, start, n):
 
 def run(tier):
     res = common.Result(PID, tier, "a history = a solved timeline problem (state variables, reusable resources, interval / impulse predicates and agents; integer and fractional times) "
-                        "executed with units_per_tick in {1, 1/2, 3/2, 2, 5} by a scripted client that answers dont_start_yet / dont_end_yet for random subsets with "
+                        "plus a family of atoms on different timelines tied by relative temporal constraints) executed with units_per_tick in {1, 1/2, 3/2, 2, 5} by a scripted client that answers dont_start_yet / dont_end_yet for random subsets with "
                         "random delays and sometimes reports failure() of an executing atom, until the horizon has passed or execution_exception; the executor_listener "
                         "event log is checked by a per-atom state machine (time advance, started / ended exactly once and in order, not before the planned time, not "
                         "against the client's last answer, nothing started moves) and the plan after every tick by the C04/C05/C06 checkers; "
@@ -229,7 +229,7 @@ def run(tier):
     exes = {v: build.driver(v, "exec_drv", libs=("executor", "solver", "core", "riddle", "smt", "json")) for v in ("dbg", "rel")}
     total = 480 if tier == "quick" else 6000
     per = 8 if tier == "quick" else 20
-    for fam in ("sv", "rr", "tl"):
+    for fam in ("sv", "rr", "tl", "sync"):
         common.pmap(work, [(exes, fam, s, per) for s in range(0, total, per)], res)
     res.gate("atoms started", res.counters.get("histories: starts", 0) > 200)
     res.gate("delays injected", res.counters.get("histories: delays", 0) > 50)
